@@ -54,6 +54,8 @@ class Unit:
             for r in lex.GENERIC:
                 body = r.apply(body, where)
             body = lex.rewrite_casts(body)
+            for r in lex.POST_GENERIC:
+                body = r.apply(body, where)
         nthrow = 0
         if ret_zero is not None:
             body, nthrow = lex.lower_throws(body, ret_zero, classmap, witness)
